@@ -39,4 +39,31 @@ Section Basics.
       destruct cur; try exact Hna. contradiction. }
     cbn [loop]. rewrite Heof, Hh, Hst. reflexivity.
   Qed.
+  (** A description on the first line of an element: `D` REST with no back-tick in D.  The description text is D
+      without surrounding white space, and the instruction parser continues right after the CLOSING back-tick
+      (column |D| + 2) — whatever white space D has inside the delimiters. *)
+  Lemma find_char_app : forall c d r, (forall x, In x d -> (x =? c) = false) -> find_char c (d ++ c :: r) = Some (length d).
+  Proof.
+    intros c. induction d as [|x d IH]; intros r H; cbn [app find_char length].
+    - rewrite N.eqb_refl. reflexivity.
+    - rewrite (H x (or_introl eq_refl)), IH by (intros y Hy; apply H; right; exact Hy). reflexivity.
+  Qed.
+
+  Lemma described_on_first_line :
+    forall s n d r rest,
+      (forall x, In x d -> (x =? c_btick) = false) ->
+      let l0 := c_btick :: d ++ c_btick :: r in
+      instr_desc l0 rest = Some (strip d) /\
+      instr_step iparse s n l0 rest = skip_cursor iparse s n l0 n l0 (length d + 2) rest.
+  Proof.
+    intros s n d r rest Hd l0. subst l0. split.
+    - unfold instr_desc. cbn [count_while is_space skipn]. change (is_space c_btick) with false. cbn [skipn].
+      rewrite N.eqb_refl, (find_char_app c_btick d r Hd).
+      assert (E : firstn (length d) (d ++ c_btick :: r) = d).
+      { rewrite firstn_app, firstn_all, Nat.sub_diag. cbn. apply app_nil_r. }
+      rewrite E. reflexivity.
+    - unfold instr_step. cbn [count_while is_space skipn]. change (is_space c_btick) with false. cbn [skipn].
+      rewrite N.eqb_refl, (find_char_app c_btick d r Hd).
+      replace (0 + 1 + length d + 1)%nat with (length d + 2)%nat by lia. reflexivity.
+  Qed.
 End Basics.
